@@ -78,6 +78,86 @@ func c07Detail(rec *SearchRecord, extra map[string]interface{}) map[string]inter
 	return d
 }
 
+// c07CheckAnswer: clause (b) on one fallback answer - every result is a genuine, eligible match of at least the
+// requested quality, best first.  entry names the path that produced it ("" = SearchUniversal itself).
+func c07CheckAnswer(mon *Mon, cur *SearchRecord, entry string) {
+	nq := strings.ToLower(strings.TrimSpace(cur.Query))
+	thr := cur.Opts.FuzzyThreshold
+	lastQ := math.MaxInt
+	for i, r := range cur.Results {
+		text := c07Text(r.Command)
+		det := func(extra map[string]interface{}) map[string]interface{} {
+			extra["result_index"] = i
+			extra["command"] = r.Command.Command
+			extra["description"] = r.Command.Description
+			if entry != "" {
+				extra["path"] = entry
+			}
+			return c07Detail(cur, extra)
+		}
+		q, matched := c07Quality(nq, text)
+		if nq == "" || !occursFolded(nq, text) || !matched {
+			mon.Hit("C07", "fuzzy-result-not-subsequence", det(map[string]interface{}{"normalised_query": nq}))
+			continue
+		}
+		if thr != 0 && q < thr {
+			mon.Hit("C07", "fuzzy-below-threshold", det(map[string]interface{}{"match_quality": q}))
+		}
+		if q > lastQ {
+			mon.Hit("C07", "fuzzy-not-best-first", det(map[string]interface{}{"match_quality": q, "previous": lastQ}))
+		}
+		lastQ = q
+		if !c07Eligible(r.Command, cur.Opts) {
+			mon.Hit("C07", "fuzzy-result-violates-filters", det(map[string]interface{}{"platform": r.Command.Platform}))
+		}
+	}
+}
+
+// c07CachedAndReplaced: the same typo query through the cache layer under a run of thresholds on ONE cache (an entry
+// stored for one threshold must not answer another), and again after the command list was replaced by one of the same
+// size (anything the fallback keeps per database must follow the replacement).
+func c07CachedAndReplaced(mon *Mon, cur *SearchRecord) {
+	defer func() {
+		if r := recover(); r != nil {
+			mon.Hit("C10", "search-panic", map[string]interface{}{"entry": "c07-cached", "query": cur.Query, "panic": strings.ReplaceAll(toStr(r), "\n", " ")})
+		}
+	}()
+	cp := &database.Database{Commands: c03Clone(cur.DB.Commands)}
+	cdb := database.NewCachedDatabase(cp)
+	run := func(thr int, entry string) {
+		o := cur.Opts
+		o.FuzzyThreshold = thr
+		rs := cdb.SearchWithOptionsAndCache(cur.Query, o)
+		if off := o; true {
+			off.UseFuzzy = false
+			if len(cdb.Database.SearchUniversal(cur.Query, off)) > 0 {
+				return // answered lexically on this database: not a fallback answer
+			}
+		}
+		rec := &SearchRecord{DB: cdb.Database, Query: cur.Query, Opts: o, Results: rs}
+		for _, x := range rs {
+			id := cdb.Database.VerifIndexOf(x.Command)
+			if id < 0 {
+				mon.Hit("C07", "fuzzy-result-not-subsequence", c07Detail(rec, map[string]interface{}{"path": entry, "why": "result is not an entry of the searched database"}))
+				return
+			}
+			rec.IDs = append(rec.IDs, id)
+		}
+		c07CheckAnswer(mon, rec, entry)
+		mon.Tag("c07-" + entry)
+	}
+	for _, thr := range []int{0, -30, cur.Opts.FuzzyThreshold, -5, 0, -100} {
+		run(thr, "cached-threshold-run")
+	}
+	repl := c03Clone(cur.DB.Commands)
+	for i, j := 0, len(repl)-1; i < j; i, j = i+1, j-1 {
+		repl[i], repl[j] = repl[j], repl[i]
+	}
+	cdb.UpdateDatabase(repl)
+	run(cur.Opts.FuzzyThreshold, "after-same-size-replacement")
+	run(0, "after-same-size-replacement")
+}
+
 func init() {
 	searchMonitors = append(searchMonitors, func(mon *Mon, cur *SearchRecord, prev []*SearchRecord) {
 		if !cur.Opts.UseFuzzy {
@@ -138,30 +218,9 @@ func init() {
 			mon.Tag("c07-eligible-subsequence-exists")
 		}
 		// (b)
-		lastQ := math.MaxInt
-		for i, r := range cur.Results {
-			text := c07Text(r.Command)
-			det := func(extra map[string]interface{}) map[string]interface{} {
-				extra["result_index"] = i
-				extra["command"] = r.Command.Command
-				extra["description"] = r.Command.Description
-				return c07Detail(cur, extra)
-			}
-			q, matched := c07Quality(nq, text)
-			if nq == "" || !occursFolded(nq, text) || !matched {
-				mon.Hit("C07", "fuzzy-result-not-subsequence", det(map[string]interface{}{"normalised_query": nq}))
-				continue
-			}
-			if thr != 0 && q < thr {
-				mon.Hit("C07", "fuzzy-below-threshold", det(map[string]interface{}{"match_quality": q}))
-			}
-			if q > lastQ {
-				mon.Hit("C07", "fuzzy-not-best-first", det(map[string]interface{}{"match_quality": q, "previous": lastQ}))
-			}
-			lastQ = q
-			if !c07Eligible(r.Command, cur.Opts) {
-				mon.Hit("C07", "fuzzy-result-violates-filters", det(map[string]interface{}{"platform": r.Command.Platform}))
-			}
+		c07CheckAnswer(mon, cur, "")
+		if len(cands) > 0 {
+			c07CachedAndReplaced(mon, cur)
 		}
 		if len(cur.Results) > 0 {
 			mon.Tag("c07-fallback-answer")
